@@ -92,3 +92,15 @@ Theorem C31_open_outside_jail_fails :
        pre_open_hook (Some l) url = false).
 Proof. intros l url. split; [apply pre_open_inside|apply pre_open_outside_fails]. Qed.
 Print Assumptions C31_open_outside_jail_fails.
+
+(* containment is decided by path SEGMENTS: with the jail at  d/proj  the siblings
+   d/proj-x, d/proj.x, d/projs, d/proj%20x (also spelled d/proj/../proj-x) and the
+   parent d are refused, d/proj and d/proj/in are accepted *)
+Example C31_jail_is_segmentwise :
+  let jail := Some [(0, pf_segs [100;47;112;114;111;106])]%N in
+  map (fun c => pre_open_hook jail (0%N, pf_segs c))
+      [[100;47;112;114;111;106;45;120]; [100;47;112;114;111;106;46;120]; [100;47;112;114;111;106;115];
+       [100;47;112;114;111;106;37;50;48;120]; [100;47;112;114;111;106;47;46;46;47;112;114;111;106;45;120];
+       [100]; [100;47;112;114;111;106;47]; [100;47;112;114;111;106;47;105;110]]%N
+  = [false; false; false; false; false; false; true; true].
+Proof. vm_compute. reflexivity. Qed.
